@@ -18,11 +18,11 @@ func init() { register("C14", propC14) }
 // fieldModel: everything C14 and C11 extract from the program.
 type fieldModel struct {
 	w      *World
-	labels map[string]*labelInfo       // get() case labels
-	tables map[string][]string         // glf table name -> names
-	tvars  map[string]*ssa.Global      // glf table globals
-	flagOf map[string]*types.Var       // table name -> Filter.UseX flag set for it in glf.New
-	routOf map[*types.Var]*ssa.Function // flag -> fetch routine called under it in Get
+	labels map[string]*labelInfo          // get() case labels
+	tables map[string][]string            // glf table name -> names
+	tvars  map[string]*ssa.Global         // glf table globals
+	flagOf map[string]*types.Var          // table name -> Filter.UseX flag set for it in glf.New
+	routOf map[*types.Var]*ssa.Function   // flag -> fetch routine called under it in Get
 	supp   map[*ssa.Function][]*types.Var // routine -> flags that suppress it
 	writes map[*ssa.Function]map[*types.Var]bool
 	base   map[*types.Var]bool // written by Get before dispatch
